@@ -5,8 +5,9 @@ import GmqttVerif.Proofs.RedisQueue
   The redis queue (Model/RedisQueue.lean: the list `queue:<id>` in redis + `len`, `current`, `readCache` in memory;
   every method = LRANGE, decode, decide, then RPUSH / LSET index / LREM 1 <bytes>) is compared with the SAME Lean model as
   the memory queue (Model/Queue.lean) by the stream `queue-redis` of `bin/check C10`: same op lines, same oracle.
-  Here the refinement is stated in Lean, and proved for the operations that touch at most one entry; for `Read`,
-  `ReadInflight`, `Replace` and `Add` on a full queue it is established by that stream only (`_partial`).
+  Here the refinement is stated in Lean, and proved for the operations that touch at most one entry (`Init`, `Close`,
+  `Add` below capacity, `Remove`, `Replace`); for the loops — `Read`, `ReadInflight` and the drop ladder of `Add` on a full
+  queue — it is established by that stream only (`_partial`).
 
   `Sim C rq ds q` (Proofs/RedisQueue.lean): the redis list holds exactly the encodings of `q.done ++ q.rest`, `len` and
   `current` are their lengths, `readCache` maps every packet id in front of the cursor to the bytes of its entry, the flags
@@ -49,6 +50,15 @@ theorem redis_refines_mem_remove (C : RedisQueue.Codec) (rq : RQ) (ds : Dataset)
     ((remove rq pid : Res Elem).evs.map evOf = (q.remove pid).2.1) ∧ (remove rq pid : Res Elem).status = .ok ∧
       Sim C (remove rq pid : Res Elem).q (applyAll ds (remove rq pid : Res Elem).cmds) (q.remove pid).1 :=
   sim_remove C rq ds q pid h hpid
+
+/-- `Replace(elem)`: LSET at the index of the first entry in front of the cursor carrying the packet id; the ghost tag of the
+    slot stays with it (`slotTag`), exactly as `Queue.replaceFirst` does -/
+theorem redis_refines_mem_replace (C : RedisQueue.Codec) (rq : RQ) (ds : Dataset) (q : Q) (e : Elem) (h : Sim C rq ds q) :
+    let slotTag := ((q.done.find? (fun x => x.id == e.id)).map (·.tag)).getD e.tag
+    let e' : Elem := { e with tag := slotTag }
+    ((replace (ops C) rq ds e').status = (if (q.replace e).2 then Status.replaced else Status.notfound)) ∧
+      Sim C (replace (ops C) rq ds e').q (applyAll ds (replace (ops C) rq ds e').cmds) (q.replace e).1 :=
+  sim_replace C rq ds q e h
 
 /-- `Close` -/
 theorem redis_refines_mem_close (C : RedisQueue.Codec) (rq : RQ) (ds : Dataset) (q : Q) (h : Sim C rq ds q) :
